@@ -101,6 +101,12 @@ def _clamp(ctx):
         rep.check(ok, 'R2', 'clamp:%s' % label, where(b), 'stores clamp(x, min, max) = %s in its own cell' % want,
                   'for %s (x=%s, min=%s, max=%s) set_value stores %s, expected %s' % (label, x, lo, hi, got, want))
     rep.sample('set_value: %d paths; stored value == clamp(x,min,max) on 8 orderings' % len(outs))
+    # a set_sampled that does not go through set_value clamps on its own account
+    from .common import direct_sampler
+    ds = direct_sampler(ctx)
+    if ds is not None:
+        rep.check(ds['ok'], 'R2', 'clamp:set_sampled-writes-directly', where(ds['body']), ds['why'],
+                  'set_sampled writes the cell without going through set_value and ' + ds['why'])
     # min / max have no writer but the constructor
     from .common import places_in_body
     n = 0
